@@ -2255,8 +2255,12 @@ class StridedInterval:
         if tok == self.bits:
             return self.copy()
 
-        # the interval can be represented in tok bits
-        if (self.lower_bound & mask) == self.lower_bound and (self.upper_bound & mask) == self.upper_bound:
+        # the interval can be represented in tok bits (not if it wraps around: then it passes through larger values)
+        if (
+            self.lower_bound <= self.upper_bound
+            and (self.lower_bound & mask) == self.lower_bound
+            and (self.upper_bound & mask) == self.upper_bound
+        ):
             return StridedInterval(
                 bits=tok,
                 stride=self.stride,
@@ -2267,7 +2271,7 @@ class StridedInterval:
 
         # the range between lower bound and upper bound can be represented
         # in the new SI
-        if self.upper_bound - self.lower_bound <= mask:
+        if 0 <= self.upper_bound - self.lower_bound <= mask:
             lower = self.lower_bound & mask
             upper = self.upper_bound & mask
             # Keep the signs!
